@@ -27,7 +27,7 @@
 #include <vector>
 namespace sg4 = simgrid::s4u;
 
-static const int NSLOT   = 8;
+static const int NSLOT   = 12;
 static const double SPEED = 4294967296.0; // 2^32 flops/s, 2^32 B/s: durations are multiples of 2^-32 s
 static const double LAT   = 0.0009765625; // 2^-10 s on every private link
 
@@ -104,7 +104,11 @@ static void* const PAYLOAD = (void*)&events;
 
 static void actor_body(int me, std::vector<Op> ops)
 {
-  std::map<int, sg4::ActivityPtr> act;
+  // the activities outlive the actor (the child leaves with _exit): destroying a still running s4u::Comm at the end of
+  // the actor is a misuse of the API that the library answers with a backtrace, not something this check is about
+  static std::vector<std::map<int, sg4::ActivityPtr>*> keep;
+  keep.push_back(new std::map<int, sg4::ActivityPtr>());
+  std::map<int, sg4::ActivityPtr>& act = *keep.back();
   std::map<int, char> kind;
   std::map<int, void*> slotbuf;
   sg4::this_actor::on_exit([me](bool failed) { ev(me, failed ? "killed" : "end", "-"); });
